@@ -103,18 +103,31 @@ Theorem C17_include_keeps_slot : forall (c : cfg) (path : list str) (st : store)
 Proof. exact include_keeps_slot. Qed.
 Print Assumptions C17_include_keeps_slot.
 
-(* hence the cell law holds across late includes: typed accesses to a property of type t interleaved with
-   arbitrary further configurations answer like a cell of type t ... *)
+(* hence the cell law for everything that can reach a property of type t - fresh typed lookups, long-lived typed
+   handles Prop<T> (creation, set, get), late includes, in any interleaving: the answers are those of a cell of
+   type t; an access of another type is an error (InvalidInput for a lookup / handle creation, the panic record
+   9 4 / 9 5 for a set / get through a handle of another type) and changes nothing ... *)
 Theorem C17_typed_stable_across_includes : forall ops path st name t n, get_raw name st = ESome t n ->
-  snd (run_entry_l path st name ops) = cell_run t n (typed_of ops) /\
-  exists n', get_raw name (fst (run_entry_l path st name ops)) = ESome t n'.
+  snd (run_cell path st name ops) = cell_run2 t n ops /\
+  exists n', get_raw name (fst (run_cell path st name ops)) = ESome t n'.
 Proof. exact typed_stable_across_includes. Qed.
 Print Assumptions C17_typed_stable_across_includes.
 
-(* ... and whatever late operations (accesses to any properties, includes) run on a module, a property
-   that has a type keeps it *)
+(* ... in particular a write through a handle whose type differs from the property's type never changes the
+   property (Prop::set's assertion fires before anything is written), and a read through it is an error *)
+Theorem C17_handle_of_other_type : forall st name t n ty v, get_raw name st = ESome t n -> t <> ty ->
+  h_set st name ty v = (st, [9; 4]) /\ h_get st name ty = [9; 5] /\
+  snd (h_new st name ty) = Some TInvalidInput /\ get_raw name (fst (h_new st name ty)) = ESome t n.
+Proof.
+  intros st name t n ty v H Ne. split; [exact (h_set_mismatch st name t n ty v H Ne)|].
+  split; [exact (h_get_mismatch st name t n ty H Ne)|exact (h_new_mismatch st name t n ty H Ne)].
+Qed.
+Print Assumptions C17_handle_of_other_type.
+
+(* ... and whatever operations (on any properties, through lookups or handles, includes) run on a module, a
+   property that has a type keeps it *)
 Theorem C17_late_keeps_type : forall ops path st name t n, get_raw name st = ESome t n ->
-  exists n', get_raw name (run_module_l path st ops) = ESome t n'.
+  exists n', get_raw name (run_module path st ops) = ESome t n'.
 Proof. exact late_keeps_type. Qed.
 Print Assumptions C17_late_keeps_type.
 
@@ -176,10 +189,20 @@ Definition addr : str := [97;100;100;114].
 Definition level : str := [108;101;118;101;108].
 Definition mtu : str := [109;116;117].
 Example C17_nonvacuous_late :
-  snd (run_late [([alice], capture_for_into (cfg_new demo) [alice])]
+  snd (run_late [([alice], capture_for_into (cfg_new demo) [alice])] []
         [LTyped (TRead 0 addr 0); LInclude (alice ++ [46] ++ addr) 300; LTyped (TRead 0 addr 2); LTyped (TRead 0 addr 0);
          LTyped (TWrite 0 level 1 3); LInclude (ANY ++ [46] ++ level) 300; LTyped (TRead 0 level 0); LTyped (TRead 0 level 1);
          LTyped (TRaw 0 mtu); LInclude (alice ++ [46] ++ mtu) 9; LTyped (TRead 0 mtu 0);
          LInclude (alice ++ [46; 120]) 5; LTyped (TRead 0 [120] 0)])
   = [3;1;1] ++ [3;2] ++ [3;1;1] ++ [4;0] ++ [3;2] ++ [3;1;3] ++ [5;6] ++ [3;0] ++ [3;1;5].
+Proof. vm_compute. reflexivity. Qed.
+
+(* two handles of different types for the absent property mtu, created before its first write: the u64 handle
+   writes 1500, the write through the String handle panics and changes nothing, a String lookup is InvalidInput,
+   the u64 handle still reads 1500; after clear the String handle may type the property and the u64 one is stale *)
+Example C17_nonvacuous_handles :
+  snd (run_late [([alice], capture_for_into (cfg_new demo) [alice])] []
+        [LHandle 0 mtu 0; LHandle 0 mtu 2; LHset 0 1500; LHset 1 7; LTyped (TRead 0 mtu 2); LHget 0; LHget 1;
+         LClear 0 mtu; LHget 0; LHset 1 7; LHset 0 8; LHget 1])
+  = [8;0] ++ [8;0] ++ [13;0] ++ [9;4] ++ [3;2] ++ [14;1;1500] ++ [9;5] ++ [15] ++ [14;0] ++ [13;0] ++ [9;4] ++ [14;1;7].
 Proof. vm_compute. reflexivity. Qed.
